@@ -18,6 +18,18 @@ def log_uniform(lo_exp: float, hi_exp: float):
     return fl(lo_exp, hi_exp).map(lambda e: 10.0**e)
 
 
+@st.composite
+def scales(draw, lo_exp=-3.0, hi_exp=3.0):
+    """Positive scale factors: log-uniform over [10**lo, 10**hi], exactly 1, and 1 +- 10**U(-12,-3) (the band in which an
+    isclose()/allclose() test still says "unit": rounded unit vectors, almost normalised quaternions)."""
+    kind = draw(st.sampled_from(['log', 'log', 'one', 'near_one', 'near_one']))
+    if kind == 'log':
+        return draw(log_uniform(lo_exp, hi_exp))
+    if kind == 'one':
+        return 1.0
+    return 1.0 + draw(st.sampled_from([-1.0, 1.0]))*draw(log_uniform(-12.0, -3.0))
+
+
 def signs():
     return st.sampled_from([-1.0, 1.0])
 
@@ -124,6 +136,35 @@ def unit_quaternions(draw, allow_denormal=True):
         j = [i for i in range(4) if i not in idx][0]
         base[j] = 1.0
     return _normalise(base)
+
+
+@st.composite
+def pose_quaternions(draw):
+    """The named poses of a strapdown sensor, with a free heading: level (rotation about the vertical only), inverted
+    (half-turn about a horizontal axis, then heading), vertical (pitch of exactly +-90 deg with any roll and heading) and
+    half-turn about a drawn axis.  Returned as [w,x,y,z] with either sign."""
+    kind = draw(st.sampled_from(['level', 'inverted', 'vertical', 'half_turn']))
+    yaw = draw(st.one_of(fl(-math.pi, math.pi), st.sampled_from([0.0, math.pi/2, -math.pi/2, math.pi])))
+    qz = [math.cos(yaw/2), 0.0, 0.0, math.sin(yaw/2)]
+
+    def mul(p, q):
+        return [p[0]*q[0] - p[1]*q[1] - p[2]*q[2] - p[3]*q[3], p[0]*q[1] + p[1]*q[0] + p[2]*q[3] - p[3]*q[2],
+                p[0]*q[2] - p[1]*q[3] + p[2]*q[0] + p[3]*q[1], p[0]*q[3] + p[1]*q[2] - p[2]*q[1] + p[3]*q[0]]
+    if kind == 'level':
+        q = qz
+    elif kind == 'inverted':
+        b = draw(st.one_of(fl(-math.pi, math.pi), st.sampled_from([0.0, math.pi/2])))
+        q = mul(qz, [0.0, math.cos(b), math.sin(b), 0.0])
+    elif kind == 'vertical':
+        roll = draw(st.one_of(fl(-math.pi, math.pi), st.just(0.0)))
+        sp = draw(signs())
+        q = mul(mul(qz, [_S2, 0.0, sp*_S2, 0.0]), [math.cos(roll/2), math.sin(roll/2), 0.0, 0.0])
+    else:
+        ax = draw(axes())
+        n = math.sqrt(sum(c*c for c in ax))
+        q = [0.0] + [c/n for c in ax]
+    s = draw(signs())
+    return _normalise([s*c for c in q])
 
 
 @st.composite
